@@ -5,9 +5,15 @@
    output channel across reconnects) and controller.go:run's watch case
    (applies what it takes from that channel).  Definitions only.
 
-   Server log entries after the list version are numbered 1..n; version 0 is
-   the list version the watcher was reset to.  Buffers hold entry numbers.
-   Overflow of the two EventBufsiz buffers is outside this model (C10). *)
+   Server log entries are numbered 1..n; w_base is the list version the
+   watcher was last reset to (0 at the start), and a relist resets it to the
+   version its list was taken at (WReset).  Buffers hold entry numbers.
+   Both buffers are bounded (w_cap = EventBufsiz) and both senders are
+   non-blocking: a frame that finds the session's buffer full, and an entry
+   taken from a session when the watcher's output channel is full, are logged
+   and LOST (w_lost counts them since the last reset) while the stream
+   position / curVersion still move past them — only the next relist brings
+   a lost change in. *)
 From KC Require Export Base Cache.
 
 Record wst := {
@@ -17,8 +23,11 @@ Record wst := {
   w_pos : nat;           (* entries the current session has received from its stream *)
   w_sbuf : list nat;     (* session.outch *)
   w_obuf : list nat;     (* watcher's outch, read by the controller *)
-  w_applied : list nat;  (* entries the controller has applied, in order *)
-  w_cur : nat            (* curVersion: the last entry taken from a session *)
+  w_applied : list nat;  (* entries the controller has applied since the last reset, in order *)
+  w_cur : nat;           (* curVersion: the last entry taken from a session *)
+  w_base : nat;          (* the version of the list the watcher was last reset to *)
+  w_cap : nat;           (* capacity of the watcher's output channel *)
+  w_lost : nat           (* entries dropped since the last reset because that channel was full *)
 }.
 
 Inductive wact :=
@@ -30,62 +39,78 @@ Inductive wact :=
 | WDone            (* watcher: case <-session.done(): drop the session, schedule a retry *)
 | WRetry           (* watcher: case <-retrych: new session from curVersion *)
 | WRetryFail       (* the same, and Watch() returns an error: the session ends at once *)
-| WApply.          (* controller: case evt := <-c.watcher.events(): cache.update, publish *)
+| WApply           (* controller: case evt := <-c.watcher.events(): cache.update, publish *)
+| WReset (b : nat). (* controller: a list taken at version b arrived: cache.sync, watcher.reset(b):
+                      old session stopped, NEW output channel, curVersion := b *)
 
 Definition wall_acts : list wact :=
   [WEmit; WDeliver; WFrame; WSessEnd; WTake; WDone; WRetry; WRetryFail; WApply].
 
 (* after watcher.reset(list version): a fresh session from version 0 *)
-Definition winit : wst :=
+Definition winit (cap : nat) : wst :=
   {| w_n := 0; w_conn := true; w_has := true; w_pos := 0; w_sbuf := []; w_obuf := [];
-     w_applied := []; w_cur := 0 |}.
+     w_applied := []; w_cur := 0; w_base := 0; w_cap := cap; w_lost := 0 |}.
 
 Definition wstep (s : wst) (a : wact) : option wst :=
   match a with
   | WEmit => Some {| w_n := S (w_n s); w_conn := w_conn s; w_has := w_has s; w_pos := w_pos s;
-                     w_sbuf := w_sbuf s; w_obuf := w_obuf s; w_applied := w_applied s; w_cur := w_cur s |}
+                     w_sbuf := w_sbuf s; w_obuf := w_obuf s; w_applied := w_applied s; w_cur := w_cur s; w_base := w_base s; w_cap := w_cap s; w_lost := w_lost s |}
   | WDeliver =>
       if w_conn s && w_has s && Nat.ltb (w_pos s) (w_n s)
-      then Some {| w_n := w_n s; w_conn := true; w_has := true; w_pos := S (w_pos s);
-                   w_sbuf := w_sbuf s ++ [S (w_pos s)]; w_obuf := w_obuf s;
-                   w_applied := w_applied s; w_cur := w_cur s |}
+      then if Nat.ltb (length (w_sbuf s)) (w_cap s)
+           then Some {| w_n := w_n s; w_conn := true; w_has := true; w_pos := S (w_pos s);
+                        w_sbuf := w_sbuf s ++ [S (w_pos s)]; w_obuf := w_obuf s;
+                        w_applied := w_applied s; w_cur := w_cur s; w_base := w_base s; w_cap := w_cap s; w_lost := w_lost s |}
+           else (* select { case s.outch <- evt: default: log "output buffer full; event missed." } *)
+                Some {| w_n := w_n s; w_conn := true; w_has := true; w_pos := S (w_pos s);
+                        w_sbuf := w_sbuf s; w_obuf := w_obuf s;
+                        w_applied := w_applied s; w_cur := w_cur s; w_base := w_base s; w_cap := w_cap s; w_lost := S (w_lost s) |}
       else None
   | WFrame => if w_conn s then Some s else None
   | WSessEnd =>
       if w_conn s
       then Some {| w_n := w_n s; w_conn := false; w_has := w_has s; w_pos := w_pos s;
-                   w_sbuf := w_sbuf s; w_obuf := w_obuf s; w_applied := w_applied s; w_cur := w_cur s |}
+                   w_sbuf := w_sbuf s; w_obuf := w_obuf s; w_applied := w_applied s; w_cur := w_cur s; w_base := w_base s; w_cap := w_cap s; w_lost := w_lost s |}
       else None
   | WTake =>
       match w_has s, w_sbuf s with
       | true, i :: rest =>
-          Some {| w_n := w_n s; w_conn := w_conn s; w_has := true; w_pos := w_pos s;
-                  w_sbuf := rest; w_obuf := w_obuf s ++ [i]; w_applied := w_applied s; w_cur := i |}
+          if Nat.ltb (length (w_obuf s)) (w_cap s)
+          then Some {| w_n := w_n s; w_conn := w_conn s; w_has := true; w_pos := w_pos s;
+                       w_sbuf := rest; w_obuf := w_obuf s ++ [i]; w_applied := w_applied s; w_cur := i; w_base := w_base s; w_cap := w_cap s; w_lost := w_lost s |}
+          else (* select { case outch <- evt: default: log "output buffer full" }; curVersion = evt's version *)
+               Some {| w_n := w_n s; w_conn := w_conn s; w_has := true; w_pos := w_pos s;
+                       w_sbuf := rest; w_obuf := w_obuf s; w_applied := w_applied s; w_cur := i; w_base := w_base s; w_cap := w_cap s; w_lost := S (w_lost s) |}
       | _, _ => None
       end
   | WDone =>
       if w_has s && negb (w_conn s)
       then (* whatever the session still buffers is dropped with it *)
         Some {| w_n := w_n s; w_conn := false; w_has := false; w_pos := w_pos s;
-                w_sbuf := []; w_obuf := w_obuf s; w_applied := w_applied s; w_cur := w_cur s |}
+                w_sbuf := []; w_obuf := w_obuf s; w_applied := w_applied s; w_cur := w_cur s; w_base := w_base s; w_cap := w_cap s; w_lost := w_lost s |}
       else None
   | WRetry =>
       if negb (w_has s)
       then Some {| w_n := w_n s; w_conn := true; w_has := true; w_pos := w_cur s;
-                   w_sbuf := []; w_obuf := w_obuf s; w_applied := w_applied s; w_cur := w_cur s |}
+                   w_sbuf := []; w_obuf := w_obuf s; w_applied := w_applied s; w_cur := w_cur s; w_base := w_base s; w_cap := w_cap s; w_lost := w_lost s |}
       else None
   | WRetryFail =>
       if negb (w_has s)
       then Some {| w_n := w_n s; w_conn := false; w_has := true; w_pos := w_cur s;
-                   w_sbuf := []; w_obuf := w_obuf s; w_applied := w_applied s; w_cur := w_cur s |}
+                   w_sbuf := []; w_obuf := w_obuf s; w_applied := w_applied s; w_cur := w_cur s; w_base := w_base s; w_cap := w_cap s; w_lost := w_lost s |}
       else None
   | WApply =>
       match w_obuf s with
       | i :: rest =>
           Some {| w_n := w_n s; w_conn := w_conn s; w_has := w_has s; w_pos := w_pos s;
-                  w_sbuf := w_sbuf s; w_obuf := rest; w_applied := w_applied s ++ [i]; w_cur := w_cur s |}
+                  w_sbuf := w_sbuf s; w_obuf := rest; w_applied := w_applied s ++ [i]; w_cur := w_cur s; w_base := w_base s; w_cap := w_cap s; w_lost := w_lost s |}
       | [] => None
       end
+  | WReset b =>
+      if Nat.leb b (w_n s)
+      then Some {| w_n := w_n s; w_conn := true; w_has := true; w_pos := b; w_sbuf := []; w_obuf := [];
+                   w_applied := []; w_cur := b; w_base := b; w_cap := w_cap s; w_lost := 0 |}
+      else None
   end.
 
 Fixpoint wrun (s : wst) (l : list wact) : option wst :=
